@@ -15,9 +15,21 @@ carries 32-bit seconds; for utime(None) the served times must lie between the wa
 before and after the call, which is what "now" means for os.utime(path, None) as well).
 Nothing is asserted about times after non-utime operations (mtime/ctime updates of truncate are
 "now" on both sides and not comparable).
+
+Path forms.  The served object "f" lives in a generated sub-directory (depth 0..2) of the served tree.  Every operation
+names it (by path, or when opening the handle) in a generated FORM: the client's working directory is first brought to a
+generated state with the documented SFTPClient.chdir() - none, "/", an ancestor, the object's own directory - and the path
+is absolute, relative to that working directory ("f", "e/f"), "./"-prefixed, or takes a detour through an existing
+directory ("sib/../f").  Same-named decoys "f" sit at the root of the served tree, in every ancestor directory and in a
+sibling directory "sib" at every level.  Local-filesystem meaning (os.chdir(cwd); os.chmod(path, ...)): the object in the
+working directory changes exactly like the twin, and NO decoy changes (mode, owner, size, mtime, bytes compared with a
+snapshot after every operation).  Only existing directories are used for ".." detours, so that the server's lexical
+path canonicalisation and the filesystem's physical one agree.
 """
+import errno
 import os
 import shutil
+import stat
 import time
 
 from hypothesis import strategies as st
@@ -31,9 +43,13 @@ RULE = (
     "{0,1,2,255..257,4095..4097,65535..65537,70000,100000, random 0..102400}) or a served directory, plus 1-4 "
     "attribute operations by path (SFTPClient) or by open handle (SFTPFile, opened 'r' or 'r+'): truncate to "
     "{0,1,len-1,len,len+1,2*len,70000,random 0..200000, 2^32+k sparse}, chmod 0..0o7777 (permission bits and set-uid/set-gid/sticky, "
-    "files by path and by handle, directories by path), utime ints 0..2^31-1 or None, "
-    "chown to arbitrary ids (root) or own ids; oracle = twin file under os.truncate/os.chmod/os.utime/os.chown, compared "
-    "after every op (bytes, size, mode, uid, gid; atime/mtime after utime). non-trivial = a truncate of a non-empty file to a "
+    "files by path and by handle, directories by path), utime ints over the whole unsigned 32-bit range 0..2^32-1 (dense at 0, 2^31 +-2, "
+    "2^32-1; atime and mtime independently) or None, "
+    "chown to arbitrary ids (root) or own ids; the object lives in a generated sub-directory (depth 0..2) and each op names it in a generated "
+    "path form: client working directory {unset, '/', an ancestor, the object's directory} set with SFTPClient.chdir(), path {absolute, "
+    "relative to the working directory, './'-prefixed, detour 'sib/../'} - with same-named decoys at the root, in every ancestor and in a sibling "
+    "directory at every level; oracle = twin file under os.truncate/os.chmod/os.utime/os.chown, compared "
+    "after every op (bytes, size, mode, uid, gid; atime/mtime after utime) + no decoy changed. non-trivial = a truncate of a non-empty file to a "
     "different size, or a chmod/utime/chown that changes the attribute's value; distinct by SHA-1 of the case"
 )
 THOROUGH_WORKERS = 16
@@ -70,32 +86,53 @@ _mode = st.one_of(
     st.builds(lambda hi, lo: (hi << 9) | lo, st.integers(1, 7), st.sampled_from([0, 0o777, 0o755, 0o644, 0o711, 0o070, 0o001])),
     st.sampled_from([0, 0o777, 0o644, 0o600, 0o755, 0o400, 0o200, 0o100, 0o007, 0o7777, 0o4755, 0o2755, 0o1777, 0o6711]),
 )
-_time = st.one_of(st.integers(0, 2**31 - 1), st.sampled_from([0, 1, 2**31 - 1, 1000000000, 86400]))
-_times = st.one_of(st.none(), st.tuples(_time, _time))
+# SFTP v3 times are unsigned 32-bit seconds: the whole range, dense at the ends and around 2^31
+_time = st.one_of(
+    st.integers(0, 2**32 - 1),
+    st.integers(0, 2**31 - 1),
+    st.integers(2**31, 2**32 - 1),
+    st.sampled_from([0, 1, 86400, 1000000000, 2**31 - 2, 2**31 - 1, 2**31, 2**31 + 1, 3000000000, 2**32 - 2, 2**32 - 1]),
+)
+_times = st.one_of(st.none(), st.tuples(_time, _time), st.tuples(_time, _time).map(lambda v: v))
 if IS_ROOT:
     _id = st.one_of(st.integers(0, 65534), st.sampled_from([0, 1, 1000, 65534, 100000, 2**31 - 1]))
     _ids = st.tuples(_id, _id)
 else:  # an unprivileged user may only "change" to what it already is
     _ids = st.just((os.geteuid(), os.getegid()))
 
+# path form of one operation: (working directory, style).  Working directory: None = none set (chdir(None)), k = chdir() into the
+# first k components of the object's directory (0 = "/"; clipped to the depth of the directory); style: how the path is spelled
+# relative to it.  Half of the operations keep the plain absolute path without a working directory.
+STYLES = ["abs", "rel", "dot", "detour"]
+_cwd = st.sampled_from([None, 0, 1, 2, 2, 2])
+_form = st.one_of(
+    st.just((None, "abs")),
+    st.just((None, "abs")).map(lambda v: v),
+    st.tuples(_cwd, st.sampled_from(STYLES)),
+    st.tuples(_cwd, st.sampled_from(["rel", "rel", "dot", "detour"])),
+)
+_comp = st.sampled_from(["d", "e", "sub", "a b", "x.y", "\u00fc"])
+_dir = st.one_of(st.just([]), st.lists(_comp, min_size=1, max_size=2), st.lists(_comp, min_size=1, max_size=2).map(lambda v: v))
+
 _op_file = st.one_of(
-    st.tuples(st.just("truncate"), _via_file, _weights_target),
-    st.tuples(st.just("truncate"), _via_file, _weights_target),
-    st.tuples(st.just("chmod"), _via_file, _mode),
-    st.tuples(st.just("utime"), _via_file, _times),
-    st.tuples(st.just("chown"), _via_file, _ids),
+    st.tuples(st.just("truncate"), _via_file, _weights_target, _form),
+    st.tuples(st.just("truncate"), _via_file, _weights_target, _form),
+    st.tuples(st.just("chmod"), _via_file, _mode, _form),
+    st.tuples(st.just("utime"), _via_file, _times, _form),
+    st.tuples(st.just("chown"), _via_file, _ids, _form),
 )
 _op_dir = st.one_of(
-    st.tuples(st.just("chmod"), st.just("path"), _mode),
-    st.tuples(st.just("utime"), st.just("path"), _times),
-    st.tuples(st.just("chown"), st.just("path"), _ids),
+    st.tuples(st.just("chmod"), st.just("path"), _mode, _form),
+    st.tuples(st.just("utime"), st.just("path"), _times, _form),
+    st.tuples(st.just("chown"), st.just("path"), _ids, _form),
 )
 
+_file_case = {"kind": st.just("file"), "pat": _pattern, "size": _sizes, "dir": _dir, "ops": st.lists(_op_file, min_size=1, max_size=4)}
 case_st = st.one_of(
-    st.fixed_dictionaries({"kind": st.just("file"), "pat": _pattern, "size": _sizes, "ops": st.lists(_op_file, min_size=1, max_size=4)}),
-    st.fixed_dictionaries({"kind": st.just("file"), "pat": _pattern, "size": _sizes, "ops": st.lists(_op_file, min_size=1, max_size=4)}),
-    st.fixed_dictionaries({"kind": st.just("file"), "pat": _pattern, "size": _sizes, "ops": st.lists(_op_file, min_size=1, max_size=4)}),
-    st.fixed_dictionaries({"kind": st.just("dir"), "pat": st.just(b"\x01"), "size": st.just(0), "ops": st.lists(_op_dir, min_size=1, max_size=3)}),
+    st.fixed_dictionaries(_file_case),
+    st.fixed_dictionaries(_file_case).map(lambda v: v),
+    st.fixed_dictionaries(_file_case).map(lambda v: v),
+    st.fixed_dictionaries({"kind": st.just("dir"), "pat": st.just(b"\x01"), "size": st.just(0), "dir": _dir, "ops": st.lists(_op_dir, min_size=1, max_size=3)}),
 )
 
 
@@ -122,15 +159,45 @@ def _resolve_target(t, cur):
 # ----------------------------------------------------------------------------- execution
 
 _counter = [0]
+_scratch_dir = [None]
+
+
+def scratch(ctx):
+    """Directory for the served trees and twins: tmpfs when available (every case builds and removes a small tree, some
+    with multi-GiB sparse files), else ctx.tmpdir().  Removed at interpreter exit."""
+    if _scratch_dir[0] is None or not os.path.isdir(_scratch_dir[0]):
+        import atexit
+        import tempfile
+
+        shm = "/dev/shm"
+        if os.path.isdir(shm) and os.access(shm, os.W_OK):
+            _scratch_dir[0] = tempfile.mkdtemp(prefix="verif-C31-", dir=shm)
+            atexit.register(shutil.rmtree, _scratch_dir[0], True)
+        else:
+            _scratch_dir[0] = ctx.tmpdir()
+    return _scratch_dir[0]
 
 
 def _read_file(path, limit=4 << 20):
-    """Whole content, or for sparse giants (head, tail, size)."""
+    """Whole content, or for sparse giants (first MiB without its trailing zeros, last 8 KiB, size).  Holes read as zeros, so
+    only the data extents below 1 MiB are actually read (SEEK_DATA / SEEK_HOLE; the whole first MiB where unsupported)."""
     size = os.stat(path).st_size
     with open(path, "rb") as f:
         if size <= limit:
             return f.read()
-        head = f.read(1 << 20)
+        fd, top, end, pos = f.fileno(), 1 << 20, 0, 0
+        try:
+            while pos < top:
+                a = os.lseek(fd, pos, os.SEEK_DATA)
+                if a >= top:
+                    break
+                pos = os.lseek(fd, a, os.SEEK_HOLE)
+                end = min(pos, top)
+        except OSError as e:
+            if e.errno != errno.ENXIO:  # ENXIO = no data after `pos`
+                end = top
+        f.seek(0)
+        head = f.read(end).rstrip(b"\x00")
         f.seek(size - 8192)
         tail = f.read()
         return (head, tail, size)
@@ -140,34 +207,125 @@ def _mode_bits(st_mode):
     return st_mode & 0o7777
 
 
-def execute(ctx, case):
-    kind, pat, size, ops = case["kind"], case["pat"], case["size"], case["ops"]
-    ops = [list(o) for o in ops]
-    jcase = {"kind": kind, "pat": pat, "size": size, "ops": ops}
-
-    _counter[0] += 1
-    base = os.path.join(ctx.tmpdir(), "c%d" % _counter[0])
-    root = os.path.join(base, "root")
-    os.makedirs(root)
-    served = os.path.join(root, "f")
-    twin = os.path.join(base, "twin")
-    content = _content(pat, size)
+def _build_tree(root, dirs, kind, content):
+    """root/<dirs...>/f is the object (file with `content`, or a directory).  Same-named decoys: "f" in the root and in every
+    ancestor directory, and "sib/f" at every level (root, ancestors, the object's own directory).
+    Returns (path of the object, {decoy path: snapshot})."""
+    levels = [root]
+    for comp in dirs:
+        levels.append(os.path.join(levels[-1], comp))
+    os.makedirs(levels[-1], exist_ok=True)
+    target = os.path.join(levels[-1], "f")
+    places = []
+    for i, lv in enumerate(levels):
+        sib = os.path.join(lv, "sib")
+        os.mkdir(sib)
+        places.append(os.path.join(sib, "f"))
+        if i < len(levels) - 1:
+            places.append(os.path.join(lv, "f"))
     if kind == "file":
-        for p in (served, twin):
-            with open(p, "wb") as f:
-                f.write(content)
-            os.chmod(p, 0o644)
+        with open(target, "wb") as f:
+            f.write(content)
+        os.chmod(target, 0o644)
     else:
-        for p in (served, twin):
+        os.mkdir(target)
+        os.chmod(target, 0o755)
+    decoys = {}
+    for i, p in enumerate(places):
+        if kind == "file":
+            with open(p, "wb") as f:
+                f.write(b"decoy-%02d " % i * 40)
+            os.chmod(p, 0o644)
+        else:
             os.mkdir(p)
             os.chmod(p, 0o755)
+        os.utime(p, (1000000000 + i, 1000000100 + i))
+        decoys[p] = _snapshot(p)
+    return target, decoys
+
+
+def _snapshot(p):
+    try:
+        s = os.lstat(p)
+    except OSError as e:
+        return ("missing", e.errno)
+    if stat.S_ISDIR(s.st_mode):
+        body = tuple(sorted(os.listdir(p)))
+        size = 0
+    else:
+        with open(p, "rb") as f:
+            body = f.read(1 << 16)
+        size = s.st_size
+    return (oct(s.st_mode), s.st_uid, s.st_gid, size, s.st_mtime_ns, body)
+
+
+def _spell(dirs, form):
+    """(working directory to chdir() into or None, path as given to the client) for an op's path form."""
+    cwd, style = form
+    depth = None if cwd is None else min(int(cwd), len(dirs))
+    cwd_path = None if depth is None else "/" + "/".join(dirs[:depth])
+    rel = "/".join(list(dirs[depth or 0 :]) + ["f"])
+    if style == "abs":
+        path = "/" + "/".join(list(dirs) + ["f"])
+    elif style == "rel":
+        path = rel
+    elif style == "dot":
+        path = "./" + rel
+    elif style == "detour":
+        path = "sib/../" + rel  # "sib" exists in the working directory (in the root when none is set)
+    else:
+        raise AssertionError(form)
+    where = "none" if depth is None else ("root" if depth == 0 else ("own-dir" if depth == len(dirs) else "ancestor"))
+    return cwd_path, path, where
+
+
+def execute(ctx, case):
+    kind, pat, size, ops = case["kind"], case["pat"], case["size"], case["ops"]
+    ops = [[list(x) if isinstance(x, tuple) else x for x in o] for o in ops]
+    jcase = {"kind": kind, "pat": pat, "size": size, "ops": ops}
+    dirs = list(case.get("dir") or [])  # (cases of the first generation of this check: object at the root, absolute paths)
+    if "dir" in case:
+        jcase["dir"] = dirs
+
+    _counter[0] += 1
+    base = os.path.join(scratch(ctx), "c%d" % _counter[0])
+    root = os.path.join(base, "root")
+    os.makedirs(root)
+    twin = os.path.join(base, "twin")
+    content = _content(pat, size)
+    served, decoys = _build_tree(root, dirs, kind, content)
+    if kind == "file":
+        with open(twin, "wb") as f:
+            f.write(content)
+        os.chmod(twin, 0o644)
+    else:
+        os.mkdir(twin)
+        os.chmod(twin, 0o755)
 
     nontrivial = False
     classes = set()
+    classes.add("depth:%d" % len(dirs))
     env = sftpenv.SftpEnv(root)
+    cur_cwd = None
     try:
         c = env.client
-        for idx, (op, via, arg) in enumerate(ops):
+        for idx, o in enumerate(ops):
+            op, via, arg = o[0], o[1], o[2]
+            form = o[3] if len(o) > 3 else [None, "abs"]
+            style = form[1]
+            cwd_path, rpath, cwd_where = _spell(dirs, form)
+            classes.add("path:" + style)
+            classes.add("cwd:" + cwd_where)
+            if style != "abs" and cwd_where in ("ancestor", "own-dir"):
+                classes.add("relative-path-after-chdir-into-subdir")
+            sfx = "" if style == "abs" else ":%s-path" % style
+            if cwd_path != cur_cwd:
+                try:
+                    c.chdir(cwd_path)
+                except (IOError, OSError) as e:
+                    ctx.inconc("chdir-failed:%s" % type(e).__name__)
+                    return
+                cur_cwd = cwd_path
             before = os.stat(twin)
             old_len = before.st_size if kind == "file" else 0
             # -------- what the local filesystem does
@@ -212,15 +370,15 @@ def execute(ctx, case):
             try:
                 if via == "path":
                     if op == "truncate":
-                        c.truncate("/f", n)
+                        c.truncate(rpath, n)
                     elif op == "chmod":
-                        c.chmod("/f", arg)
+                        c.chmod(rpath, arg)
                     elif op == "utime":
-                        c.utime("/f", None if arg is None else tuple(arg))
+                        c.utime(rpath, None if arg is None else tuple(arg))
                     elif op == "chown":
-                        c.chown("/f", arg[0], arg[1])
+                        c.chown(rpath, arg[0], arg[1])
                 else:
-                    with c.open("/f", via.split(":")[1]) as fh:
+                    with c.open(rpath, via.split(":")[1]) as fh:
                         if op == "truncate":
                             fh.truncate(n)
                         elif op == "chmod":
@@ -232,7 +390,15 @@ def execute(ctx, case):
             except (IOError, OSError) as e:
                 exc = e
             t1 = time.time()
-            where = "op %d %s via %s arg %r" % (idx, op, via, n if op == "truncate" else arg)
+            where = "op %d %s via %s arg %r, path %r with working directory %r (object is /%s)" % (
+                idx,
+                op,
+                via,
+                n if op == "truncate" else arg,
+                rpath,
+                cwd_path,
+                "/".join(dirs + ["f"]),
+            )
             if twin_exc is not None:
                 # the local filesystem refuses this too (e.g. EFBIG): nothing to compare for this op
                 ctx.count("local-os-refused:%s:%s" % (op, type(twin_exc).__name__))
@@ -240,17 +406,30 @@ def execute(ctx, case):
                     ctx.inconc("sftp-accepted-what-os-refused:%s" % op)
                 return
             if exc is not None:
-                ctx.violation("raises", "%s:%s:%s" % (op, via.split(":")[0], type(exc).__name__), jcase, "%s: client raised %r, os.%s succeeded" % (where, exc, op))
+                ctx.violation("raises", "%s:%s:%s%s" % (op, via.split(":")[0], type(exc).__name__, sfx), jcase, "%s: client raised %r, os.%s succeeded" % (where, exc, op))
                 return
+            # -------- no other object may have changed
+            for dp, snap in decoys.items():
+                now = _snapshot(dp)
+                if now != snap:
+                    ctx.violation(
+                        "wrong-object",
+                        "%s:%s%s" % (op, via.split(":")[0], sfx),
+                        jcase,
+                        "%s: the same-named object %s changed: %r -> %r" % (where, dp[len(root) :], snap[:5], now[:5]),
+                    )
+                    return
             # -------- compare
             s, t = os.stat(served), os.stat(twin)
             if op == "utime":
                 got = (int(s.st_atime), int(s.st_mtime))
                 if arg is not None:
+                    for tv in arg:
+                        classes.add("utime:>=2^31" if tv >= 2**31 else "utime:<2^31")
                     want = (int(t.st_atime), int(t.st_mtime))
                     if got != want:
                         fld = "atime+mtime-swapped" if got == want[::-1] and want[0] != want[1] else ("atime" if got[0] != want[0] else "mtime")
-                        ctx.violation("stat", "utime:%s" % fld, jcase, "%s: served (atime, mtime)=%r, os.utime twin=%r" % (where, got, want))
+                        ctx.violation("stat", "utime:%s%s" % (fld, sfx), jcase, "%s: served (atime, mtime)=%r, os.utime twin=%r" % (where, got, want))
                         return
                 else:
                     lo, hi = int(t0) - 1, int(t1) + 1
@@ -270,14 +449,15 @@ def execute(ctx, case):
                         fld = "mode-special-bits"  # only set-uid / set-gid / sticky differ
                     if fld.startswith("mode"):
                         a, b = oct(a), oct(b)
-                    ctx.violation("stat", "%s:%s" % (op, fld), jcase, "%s: served st_%s=%r, twin st_%s=%r" % (where, fld, a, fld, b))
+                    ctx.violation("stat", "%s:%s%s" % (op, fld, sfx), jcase, "%s: served st_%s=%r, twin st_%s=%r" % (where, fld, a, fld, b))
                     return
             if kind == "file":
                 got, want = _read_file(served), _read_file(twin)
                 if got != want:
                     # sparse giants are compared by (first MiB, last 8 KiB, size)
-                    ghead, glen = (got[0], got[2]) if isinstance(got, tuple) else (got, len(got))
-                    whead, wlen = (want[0], want[2]) if isinstance(want, tuple) else (want, len(want))
+                    unpack = lambda b: (b[0].ljust(min(1 << 20, b[2]), b"\x00"), b[2]) if isinstance(b, tuple) else (b, len(b))  # noqa: E731
+                    ghead, glen = unpack(got)
+                    whead, wlen = unpack(want)
                     if op == "truncate":
                         m = min(old_len, n, len(ghead), len(whead))
                         if glen != wlen:
@@ -289,7 +469,7 @@ def execute(ctx, case):
                     else:
                         bucket = "%s:content-changed" % op
                     show = lambda b: (b[0][:24], b[2]) if isinstance(b, tuple) else (b[:24], len(b))
-                    ctx.violation("content", bucket, jcase, "%s: old length %d; served now %r, os.%s twin %r" % (where, old_len, show(got), op, show(want)))
+                    ctx.violation("content", bucket + sfx, jcase, "%s: old length %d; served now %r, os.%s twin %r" % (where, old_len, show(got), op, show(want)))
                     return
     finally:
         env.close()
